@@ -241,3 +241,91 @@ pub fn bisect(job: &Value) {
     emit(&json!({"ev": "done"}));
     flush();
 }
+
+/// Exact induced law of the two-draw f32 rejection samplers (Zipf, Zeta): for every one of the 2^24 patterns of
+/// the proposal draw, the acceptance probability is located exactly by bisection over the 24-bit pattern of the
+/// acceptance draw; rounds are i.i.d., so P(X = k) = A_k / sum_j A_j with A_k = sum over proposal patterns that
+/// propose k of (accepted acceptance patterns).  No sampling error.
+pub fn exact2(job: &Value) {
+    let cases: Vec<Case> = job["cases"].as_array().expect("cases").iter().map(Case::from_json).collect();
+    let kmax = job["kmax"].as_u64().unwrap_or(4096) as usize;
+    let vseed = job["verif_seed"].as_u64().unwrap_or(0);
+    // the 2^24 proposal patterns may be split over several processes: [b_lo, b_hi)
+    let b_lo = job["b_lo"].as_u64().unwrap_or(0);
+    let b_hi = job["b_hi"].as_u64().unwrap_or(1 << 24);
+    BUDGET_MS.store(20_000, std::sync::atomic::Ordering::Relaxed);
+    for (idx, case) in cases.iter().enumerate() {
+        emit(&json!({"ev": "begin", "case_idx": idx, "id": case.id}));
+        flush();
+        set_ctx(json!({"case_idx": idx, "case": case.to_json(), "phase": "exact2"}));
+        assert!(case.ty == Ty::F32);
+        let d = match Dist::build(case) {
+            Ok(Dist::F32(d)) => d,
+            _ => {
+                emit(&json!({"ev": "ctor_err", "case_idx": idx, "case": case.to_json()}));
+                continue;
+            }
+        };
+        let seed = mix(&[vseed, 0xE2]);
+        // one call with proposal pattern b and acceptance pattern c: (value, words)
+        let call = |b: u64, c: u64| -> (f32, u64) {
+            let mut r = Mon::new(Scripted::new(seed, 0, (b << 40) | 0x12_3456_789a));
+            r.inner.pos2 = 1;
+            r.inner.word2 = (c << 40) | 0x0f_edcb_a987;
+            let x = d.sample(&mut r);
+            (x, r.count)
+        };
+        let mut acc: Vec<u128> = vec![0; kmax + 2]; // index k for k <= kmax, kmax+1 = beyond
+        let mut rejected_before_second = 0u64;
+        let mut nonmono = 0u64;
+        let mut calls = 0u64;
+        let top = (1u64 << 24) - 1;
+        for b in b_lo..b_hi.min(top + 1) {
+            if b & 0xffff == 0 {
+                tick();
+            }
+            let (x0, n0) = call(b, 0);
+            calls += 1;
+            let slot = |x: f32| -> usize { if x.is_finite() && x >= 0.0 && (x as usize) <= kmax { x as usize } else { kmax + 1 } };
+            if n0 == 1 {
+                // returned without an acceptance draw (Zeta: infinite proposal)
+                acc[slot(x0)] += 1 << 24;
+                continue;
+            }
+            if n0 != 2 {
+                // proposal rejected outright (Zipf: rank above n) or acceptance pattern 0 rejected
+                rejected_before_second += 1;
+                continue;
+            }
+            // accepted with c = 0; find the number of accepted patterns (prefix property checked at the top end)
+            let (xt, nt) = call(b, top);
+            calls += 1;
+            let cnt = if nt == 2 && xt.to_bits() == x0.to_bits() {
+                1u64 << 24
+            } else {
+                let (mut lo, mut hi) = (0u64, top); // lo accepted, hi rejected
+                while hi - lo > 1 {
+                    let mid = lo + (hi - lo) / 2;
+                    let (xm, nm) = call(b, mid);
+                    calls += 1;
+                    if nm == 2 && xm.to_bits() == x0.to_bits() { lo = mid } else { hi = mid }
+                }
+                // spot-check the prefix property just below the boundary
+                if lo > 4 {
+                    let (xp, np) = call(b, lo - 3);
+                    calls += 1;
+                    if !(np == 2 && xp.to_bits() == x0.to_bits()) {
+                        nonmono += 1;
+                    }
+                }
+                lo + 1
+            };
+            acc[slot(x0)] += cnt as u128;
+        }
+        emit(&json!({"ev": "exact2", "case_idx": idx, "case": case.to_json(), "kmax": kmax, "acc": acc.iter().map(|a| a.to_string()).collect::<Vec<_>>(),
+                     "rejected_outright": rejected_before_second, "nonmonotone": nonmono, "calls": calls, "sig": signature(&Dist::F32(d).debug())}));
+        flush();
+    }
+    emit(&json!({"ev": "done"}));
+    flush();
+}
